@@ -146,7 +146,9 @@ def table(D, E, full):
         for i in range(1, dims + 1):
             ex = {t[-i] for t in (c, x, y) if len(t) >= i} - {1}
             if len(ex) > 1: okb = False
-        if okb: out.append(C("where", [c, x, y]))
+        if okb:
+            out.append(C("where", [c, x, y], cond="int"))
+            if prod(c) >= 3: out.append(C("where", [c, x, y], cond="float"))
     # generators
     for st in range(-3, 5):
         for sp in range(-3, 7):
@@ -232,7 +234,7 @@ def _neg(x):
 
 def negative_axis(c):
     a = c["args"]; op = c["op"]
-    if op in ("take", "stack"): return _neg(a["axis"])
+    if op == "stack": return _neg(a["axis"])
     if op in ("compress", "concatenate", "repeat"): return bool(a["axis"]) and _neg(a["axis"][0])
     return False
 
@@ -266,8 +268,7 @@ def linspace_single_point(c):
     return c["op"] == "linspace" and c["args"]["num"] == 1 and c["args"]["endpoint"]
 
 
-PREDS = dict(c04_negative_axis=negative_axis, c04_take_negative_index=take_negative_index, c04_roll_shift_beyond_extent=roll_shift_beyond_extent,
-             c04_diagonal_negative_offset=diagonal_negative_offset, c04_empty_result=empty_result, c04_linspace_single_point=linspace_single_point)
+PREDS = dict(c04_negative_axis=negative_axis)
 
 
 def run(tier, seed):
